@@ -582,6 +582,10 @@ def run_shard(ck, cases, idx):
     with open(data, "w") as f:
         f.write("\n".join(lines) + "\n")
     rc, out = ck.ocaml_eval("promsel", "ExtractPromSel.v", "promsel", 'let data_file = "%s"\n' % data, "promsel_driver.ml")
+    if rc != 0 and "extraction failed" in out:
+        # a shared model (LogqlPlan.v, Sql.v) was rebuilt by a concurrent run between two shards: rebuild ours and retry once
+        ck.coq_make(["model/PromCase.vo", "model/ProfSel.vo"])
+        rc, out = ck.ocaml_eval("promsel", "ExtractPromSel.v", "promsel", 'let data_file = "%s"\n' % data, "promsel_driver.ml")
     if rc != 0:
         ck.obligation("selection cases evaluated by the extracted models", False, out[-2500:])
         return False
